@@ -445,11 +445,11 @@ def jobs(tier):
         for a, b in itertools.permutations(pal, 2):
             out.append({'host': h, 'attrs': [a, b], 'kids': ['mem']})
         for tr in itertools.permutations(['cls1', 'a', 'cls2', 'spI', 'clk1', 'clk2'], 3):
-            if tier == 'quick' and hash(tr) % 3:
+            if tier == 'quick' and common.stable_hash(tr) % 3:
                 continue
             out.append({'host': h, 'attrs': list(tr), 'kids': []})
         for tr in itertools.permutations(['cls1', 'clsA', 'clk1', 'clkA', 'sty', 'styA', 'a'], 3):
-            if len(set(x[:3] for x in tr)) == 3 or (tier == 'quick' and hash(tr) % 4):
+            if len(set(x[:3] for x in tr)) == 3 or (tier == 'quick' and common.stable_hash(tr) % 4):
                 continue        # only triples that repeat a mergeable name
             out.append({'host': h, 'attrs': list(tr), 'kids': []})
         for d in dirs:
